@@ -11,6 +11,31 @@ pub(crate) fn any_tree() -> Tree {
     kani::assume(free <= TREE_FRAMES && class < Class::LEN);
     Tree::with(free, kani::any(), Class(class))
 }
+/// (harness) a typed array of tree entries; `Tree` is private to this module, so other harness
+/// modules go through this wrapper.
+pub(crate) struct TreeArr<const N: usize> {
+    a: [Atom<Tree>; N],
+}
+impl<const N: usize> TreeArr<N> {
+    pub fn zeroed() -> Self {
+        Self { a: core::array::from_fn(|_| Atom::new(Tree::with(0, false, Class(0)))) }
+    }
+    pub fn trees(&self, default: Class) -> Trees<'_> {
+        Trees { entries: &self.a, default }
+    }
+    /// the first `n` entries only
+    pub fn trees_n(&self, n: usize, default: Class) -> Trees<'_> {
+        Trees { entries: &self.a[..n], default }
+    }
+    /// raw (free, reserved, class), bypassing the observers
+    pub fn raw(&self, i: usize) -> (usize, bool, Class) {
+        let t = Tree::from_bits(self.a[i].0.load(core::sync::atomic::Ordering::Relaxed));
+        (t.free(), t.reserved(), t.class())
+    }
+    pub fn set(&self, i: usize, free: usize, reserved: bool, class: Class) {
+        self.a[i].0.store(Tree::with(free, reserved, class).into_bits(), core::sync::atomic::Ordering::Relaxed);
+    }
+}
 pub(crate) fn any_class() -> Class {
     let c: u8 = kani::any();
     kani::assume(c < Class::LEN);
